@@ -18,24 +18,46 @@ def protect_fns(fb):
     return out
 
 
-def written_field(fb, setter):
-    """Field of its struct a setter assigns (through the value wrappers), or None; and whether it clears it."""
+def field_effects(fb, setter):
+    """What a method of a protection struct does to the struct's own fields: (fields it stores its argument in, fields
+    it clears).  A field whose wrapper is handed something besides the reference to itself is stored into; one whose
+    wrapper is called with nothing else (remove_value) or that is assigned a constant is cleared."""
     b = fb.mir.get(setter)
     if not b:
-        return None
+        return [], []
     adt = b.get("self_ty")
-    fields = set()
+    refs = {}  # local holding &mut self.f -> f
+    sets, clears = set(), set()
     for bl in b["blocks"]:
         for s in bl["s"]:
-            if s["k"] == "assign":
-                for e in s["lhs"].get("pr", []):
-                    if isinstance(e, dict) and e.get("of") == adt:
-                        fields.add(e["f"])
-                if s["rv"]["k"] == "ref" and s["rv"].get("mut"):
-                    for e in s["rv"]["place"].get("pr", []):
-                        if isinstance(e, dict) and e.get("of") == adt:
-                            fields.add(e["f"])
-    return sorted(fields)[0] if len(fields) == 1 else None
+            if s["k"] != "assign":
+                continue
+            fl = [e["f"] for e in s["lhs"].get("pr", []) if isinstance(e, dict) and e.get("of") == adt]
+            if fl:
+                (clears if s["rv"]["k"] in ("const", "agg") or s["rv"].get("op", {}).get("c") is not None else sets).add(fl[0])
+            if s["rv"]["k"] == "ref" and s["rv"].get("mut"):
+                fr = [e["f"] for e in s["rv"]["place"].get("pr", []) if isinstance(e, dict) and e.get("of") == adt]
+                if fr and not s["lhs"].get("pr"):
+                    refs[s["lhs"]["l"]] = fr[0]
+    # reborrows / moves of those references
+    changed = True
+    while changed:
+        changed = False
+        for bl in b["blocks"]:
+            for s in bl["s"]:
+                if s["k"] == "assign" and not s["lhs"].get("pr") and s["lhs"]["l"] not in refs:
+                    src = s["rv"].get("op", {}).get("p") or (s["rv"].get("place") if s["rv"]["k"] == "ref" else None)
+                    if src and src.get("l") in refs and all(e == "deref" for e in src.get("pr", [])):
+                        refs[s["lhs"]["l"]] = refs[src["l"]]
+                        changed = True
+    for _, t in fb.calls_in(b):
+        args = t.get("args", [])
+        if not args:
+            continue
+        a0 = args[0].get("p", {})
+        if a0.get("l") in refs and not a0.get("pr"):
+            (sets if len(args) > 1 else clears).add(refs[a0["l"]])
+    return sorted(sets), sorted(clears - sets)
 
 
 def run(chk, fb, tier):
@@ -70,12 +92,12 @@ def run(chk, fb, tier):
             cb = fb.mir.get(fn)
             if not cb or cb.get("self_ty") != obj_ty or not args or args[0] != ("arg", 2):
                 continue
-            f = written_field(fb, fn)
-            if f is None:
-                continue
+            fsets, fclears = field_effects(fb, fn)
             if len(args) == 1:
+                fclears, fsets = fclears + fsets, []
+            for f in fclears:
                 clears.append((f, fn, conds))
-            else:
+            for f in fsets:
                 sets[f] = (fn, args[1], conds)
                 if _mentions(args[1], ("arg", 1)) and not _through_hash(args[1]):
                     pw_leak.append(f)
@@ -127,8 +149,13 @@ def run(chk, fb, tier):
         b = fb.mir[h]
         pw = next((i for i in range(1, b["argc"] + 1) if fb.ty(b["locals"][i]["t"]) == "&str" and b["locals"][i].get("n") == "password"), 1)
         le, chars = C14.utf16le_encoded(fb, h, pw)
+        cut = C14.password_cut(fb, h, pw)
+        chk.ob(re_, "password-hash:whole-password", not cut, where=fb.loc(h), detail="every UTF-16 unit of the password enters the first hash: nothing between the parameter and the byte buffer shortens or rewrites it (%s)" % (cut or "none found"))
         chk.ob(re_, "password-hash:utf16le", le and not chars, where=fb.loc(h), detail="password is hashed as UTF-16 little-endian code units (encode_utf16 + to_le_bytes, here or in a helper): %s; per-char conversion: %s" % (le, chars))
     C14.rule_password_passthrough(chk, fb, "C15.f", ["helper::crypt::encrypt_sheet_protection", "helper::crypt::encrypt_workbook_protection", "helper::crypt::encrypt_revisions_protection"], 3)
+    import symmetry
+
+    symmetry.rule_attr_fields(chk, fb, "C15.g", only=[a for a in fb.adts if a.split("::")[-1] in ("SheetProtection", "WorkbookProtection")], floor=20)
     chk.assume("sha2 implements SHA-512; base64 STANDARD engine is RFC 4648 base64")
     chk.note("not decided: the hash value itself; persistence through save/reload is the reader/writer symmetry rule of C04.b/C06.b")
 
